@@ -107,7 +107,8 @@ def main():
         if owner.startswith("(std)"):
             continue   # std-internal sites without a crate frame are counted by the check, never compared
         snips = sorted({(s.get("snippet") or s.get("std_loc") or s["pos"])[:100] for s in sites.values()})
-        entries.append({"owner": owner, "kind": kind, "max_sites": len(snips), "class": cls, "reason": reason, "scopes": in_scopes, "snippets": snips})
+        fl = sorted(sites)[0].rsplit(":", 2)[0] if sorted(sites)[0] != "-" else None
+        entries.append({"owner": owner, "kind": kind, "file": fl, "max_sites": len(snips), "class": cls, "reason": reason, "scopes": in_scopes, "snippets": snips})
     out = {"note": "frozen on the repaired tree; keyed by (owner function, kind) with the number of distinct residual source sites; snippets are diagnostic only",
            "rustflags": residue.RUSTFLAGS, "entries": entries}
     json.dump(out, open(os.path.join(V, "ledger", "panic_sites.json"), "w"), indent=1)
